@@ -849,7 +849,30 @@ func ruleSaturation(c *Ctx, rule string) {
 	}
 	check(dec, "delta-seconds")
 	if ca := c.A.F("currentAge"); ca != nil {
-		check(ca, "Age")
+		// accepted shape: the Age field value is decoded by the (checked) saturating delta-seconds decoder
+		usesDec := false
+		var site ssa.Instruction
+		instrsOf(ca, func(in ssa.Instruction) {
+			if cc := callOf(in); cc != nil && cc.StaticCallee() == dec && len(cc.Args) == 1 {
+				if c.An.dependsOnCall(cc.Args[0], func(x *ssa.Call) bool {
+					if !callIsMethod(&x.Call, "net/http", "Header", "Get") {
+						return false
+					}
+					_, a := recvAndArgs(&x.Call)
+					s, ok := constStr(a[0])
+					return ok && s == "Age"
+				}) {
+					usesDec = true
+					site = in
+				}
+			}
+		})
+		if usesDec {
+			c.Pass(rule, "range-error-Age", "an out-of-range Age is converted to a saturated value, not dropped", c.P.ShortName(ca)+"@"+c.P.InstrPos(site)+": decoded by "+c.P.ShortName(dec))
+			c.Pass(rule, "clamp-Age", "the Age value is clamped before it is used as a duration", c.P.ShortName(ca)+"@"+c.P.InstrPos(site)+": decoded by "+c.P.ShortName(dec))
+		} else {
+			check(ca, "Age")
+		}
 	}
 }
 
